@@ -124,11 +124,11 @@ def run_case(case, R):
         scale = sum(abs(oracle.U(k, x)) for k in range(d) for x in (a[k], b[k]) if math.isfinite(x) and math.isfinite(oracle.U(k, x))) + abs(want)
         tol = 1e-9 * scale + 1e-7 * abs(want) + 100 * oracle.max_err + floor
         R.hit("fast_vs_general")
-        if abs(got - gen) > 1e-10 * scale + 1e-9 * abs(gen):
+        if not (abs(got - gen) <= 1e-10 * scale + 1e-9 * abs(gen)):
             R.violation(f"fast-path-differs-{d}d-" + ("straddling" if "straddle" in ks or "whole" in ks else "single-orthant"),
                         f"{label}: {fast}({a}, {b}) = {got!r} but the general formula gives {gen!r} (pattern {pat})", wit)
         R.hit("oracle_comparisons")
-        if abs(got - want) > tol:
+        if not (abs(got - want) <= tol):
             R.violation(f"mass-differs-from-definition-{d}d-" + ("straddling" if "straddle" in ks or "whole" in ks else "single-orthant"),
                         f"{label}: mass({a}, {b}) = {got!r}, corner-sum definition on quadrature tail integrals = {want!r} (pattern {pat})", wit)
         if got < -tol:
@@ -157,10 +157,10 @@ def run_case(case, R):
                     if c == 0.0:
                         break     # which piece owns the axis x_k = 0 is a convention the property does not fix
                     pw = oracle.mass(pa, pb)
-                    if abs(pv - pw) > tol + 1e-9 * scale:
+                    if not (abs(pv - pw) <= tol + 1e-9 * scale):
                         R.violation(f"mass-differs-from-definition-{d}d-piece-" + ("ending-at-0" if c == 0.0 else "generic"),
                                     f"{label}: mass({pa}, {pb}) = {pv!r}, definition = {pw!r}", wit)
-                if abs(s - got) > 2e-9 * scale + 1e-7 * abs(got):
+                if not (abs(s - got) <= 2e-9 * scale + 1e-7 * abs(got)):
                     R.violation(f"mass-not-additive-{d}d-" + ("split-at-0" if c == 0.0 else "split"),
                                 f"{label}: mass over ({a}, {b}] = {got!r} but the two pieces split at x_{k} = {c} sum to {s!r}", wit)
             except Exception as exc:  # noqa: BLE001
@@ -173,7 +173,7 @@ def run_case(case, R):
             R.hit("margin_checks")
             gm = float(model.mass(aw, bw))
             wm = abs(oracle.U(k, a[k]) - oracle.U(k, b[k]))
-            if abs(gm - wm) > 1e-9 * (abs(oracle.U(k, a[k])) + abs(oracle.U(k, b[k]))) + 100 * oracle.max_err + floor:
+            if not (abs(gm - wm) <= 1e-9 * (abs(oracle.U(k, a[k])) + abs(oracle.U(k, b[k]))) + 100 * oracle.max_err + floor):
                 R.violation(f"whole-line-mass-not-margin-{d}d", f"{label}: mass with every other coordinate over the whole line = {gm!r}, "
                             f"marginal mass of ({a[k]}, {b[k]}] = {wm!r}", wit)
         # index subsets = I-margins
@@ -188,7 +188,7 @@ def run_case(case, R):
                 gs = float(model.mass(ai, bi, list(idx)))
                 ws = oracle.mass(ai, bi, list(idx))
                 sc = sum(abs(oracle.U(k2, x)) for k2, x in zip(idx + idx, ai + bi) if math.isfinite(x) and math.isfinite(oracle.U(k2, x))) + abs(ws)
-                if abs(gs - ws) > 1e-9 * sc + 1e-7 * abs(ws) + 100 * oracle.max_err + floor:
+                if not (abs(gs - ws) <= 1e-9 * sc + 1e-7 * abs(ws) + 100 * oracle.max_err + floor):
                     R.violation(f"subset-mass-not-I-margin-{d}d-{len(idx)}of{d}", f"{label}: mass({ai}, {bi}, indices={idx}) = {gs!r}, "
                                 f"I-margin of the copula at the tail integrals = {ws!r}", wit)
             except Exception as exc:  # noqa: BLE001
@@ -198,7 +198,7 @@ def run_case(case, R):
     R.hit("instance_interleavings")
     for a, b, got in reversed(log):
         again = float(m3.mass(a, b))
-        if again != got and abs(again - got) > 1e-13 * (abs(got) + 1e-300):
+        if again != got and not (abs(again - got) <= 1e-13 * (abs(got) + 1e-300)):
             R.violation("mass-depends-on-instance-history", f"{label}: mass({a}, {b}) = {got!r} on a used instance, {again!r} on a fresh one", wit)
             break
     # inverse tail integral
@@ -209,17 +209,17 @@ def run_case(case, R):
             y = float(m1.marginal_tail_integral(i, x))
             yq = oracle.U(i, x)
             R.hit("inverse_roundtrips")
-            if abs(y - yq) > 1e-8 * abs(yq) + 100 * oracle.max_err + floor:
+            if not (abs(y - yq) <= 1e-8 * abs(yq) + 100 * oracle.max_err + floor):
                 R.violation("marginal-tail-integral-differs", f"{label}: U_{i}({x}) = {y!r}, quadrature {yq!r}", wit)
                 continue
             if abs(y) < 1e4 * floor + 1e-9 or abs(y) > 1e7:
                 continue
             xi = float(m1.inverse_tail_integral(i, y))
             dens = abs(float(m1.models[i].levy_triplet.nu(x)))
-            if abs(xi - x) > 1e-9 * abs(x) + 1e-12 + (1e-10 * abs(y) / dens if dens > 0 else 0):
+            if not (abs(xi - x) <= 1e-9 * abs(x) + 1e-12 + (1e-10 * abs(y) / dens if dens > 0 else 0)):
                 R.violation("inverse-tail-integral-does-not-invert", f"{label}: inverse_tail_integral({i}, U_{i}({x})) = {xi!r}", wit)
             y2 = float(m1.marginal_tail_integral(i, xi))
-            if abs(y2 - y) > 1e-8 * abs(y):
+            if not (abs(y2 - y) <= 1e-8 * abs(y)):
                 R.violation("inverse-tail-integral-does-not-invert", f"{label}: U_{i}(inverse({y})) = {y2!r}", wit)
     R.sample({"model": label, "margins": [W.model_label(m) for m in cm["margins"]], "copula": cm["copula"],
               "example": [[log[0][0], log[0][1], log[0][2]]] if log else []})
